@@ -44,7 +44,9 @@ PROVED = {
          "presentations although the separate calls flush in between (C09_full_equals_separate); C09_mixed_encodes / C09_presentation_irrelevant "
          "(Proofs/WriteMixed.v): the same for ARBITRARY MIXES — at every master independently either one Full item or Start, children (each again by "
          "its own choice), End — every call succeeds and the bytes are enc_forest; options show up only in the size fields they govern. "
-         "Global-placeholder paths and destination write scripts are covered by the correspondence groups.", ""),
+         "C09_script_irrelevant (Proofs/WriteScripts.v): for every specification and EVERY call sequence (rejected calls, raw writes, flush included) the "
+         "per-call results, the byte counts after every call and the final bytes are the same for every destination that accepts bytes in any pattern of "
+         "short writes and Interrupted errors. Global-placeholder paths are covered by the correspondence groups.", ""),
  "C19": ("Theorem C19_atomic: for every specification, state, tag tree (any nesting of Full) and options, a write that returns a non-I/O error "
          "leaves the complete writer state (open masters, working buffer, delivered bytes, destination script) exactly as it was; corollaries for the "
          "deprecated call, for write_raw (no non-I/O failure exists) and for the rest of the run (C19_erase). The proof exposed defect D21 (fixed). "
@@ -106,9 +108,11 @@ PROVED = {
          "integers, 4-byte floats, any size width incl. 8-byte fields, any subset of unknown-size masters closed by a following element or EOF), the "
          "tags the reader yields are all accepted by the writer under default options, its output is the canonical encoding, and reading that yields the "
          "identical tag sequence (values keep their meaning: decoded values are proved to lie in the range the encoders invert, incl. widened f32). "
-         "Hypothesis: the re-encoding's sizes stay below 2^56-1 and the reader's size limit. Restricted to documents (streams read without error "
-         "from a root element) with placeholder-free declared paths; global elements, mid-stream errors and reader/writer validator agreement on "
-         "arbitrary accepted streams are covered by the correspondence run (read-write-read on mutated/hand-crafted streams).", ""),
+         "C02_fixpoint_cut_partial / C02_fixpoint_prefix_partial (Proofs/FixpointCut.v): the same for streams cut on a tag boundary, whose known-size "
+         "masters declare more bytes than are present (read without error: EOF closes the open masters) — the re-written output is the complete document "
+         "with the actual sizes, and reads back as the same tags; for every prefix of a conforming document that ends on a tag boundary. Hypothesis: the "
+         "re-encoding's sizes stay below 2^56-1 and the reader's size limit. Restricted to placeholder-free declared paths; global elements and reader/"
+         "writer validator agreement on arbitrary accepted streams are covered by the correspondence run (read-write-read on mutated/hand-crafted streams).", ""),
  "C06": ("Theorems (Proofs/Nesting.v): C06_strict_items_well_nested — for every strict configuration (unknown ids and hierarchy errors not tolerated, "
          "nothing buffered), every byte input and every sequence of next()/try_recover()/drain operations, the successfully emitted tags are accepted "
          "by an independent checker started from some base chain (empty when reading from a root; the implied ancestors of the first placeholder-free "
